@@ -61,6 +61,10 @@ func cmdSecMaterialise(args []string) error {
 		if inh, _ := r["inherit"].(bool); !inh {
 			op["security"] = secReq(r["own"])
 		}
+		// tags chosen by the caller: generation may be restricted to the operations of one of them (--tags sel)
+		if t, ok := r["tag"].(string); ok {
+			op["tags"] = []any{t}
+		}
 		paths[fmt.Sprintf("/op%d", i)] = obj{"get": op}
 	}
 	doc["paths"] = paths
